@@ -136,6 +136,16 @@ Log(op, m, p, at, ap, br, out) ==
   /\ hist' = CASE Gen = "hist" -> Append(hist, [op |-> op, post |-> Snapshot(m, p, at, ap, br, out)])
                [] Gen = "trans" -> <<[pre |-> Snapshot(members, parent, atarget, atpath, backrefs, outcome),
                                      op |-> op, post |-> Snapshot(m, p, at, ap, br, out)]>>
+               \* "rare": like "trans" but only for calls that exercise the rarely reached branches (the
+               \* re-targeting loop with something to re-target, the stub merge, refusals); used with
+               \* VIEW TreeView at depths where printing every transition would be too much
+               [] Gen = "rare" -> IF /\ op.name \in {"set_member", "set_target", "resolve"}
+                                     /\ \/ at # atarget \/ br # backrefs \/ out = "Cyclic"
+                                        \/ (op.name = "set_member" /\ out = "ok" /\ \E o \in Obj : Len(backrefs[o]) >= 2)
+                                        \/ (op.name = "set_member" /\ out = "ok" /\ KindOf[op.value] = "module" /\ m[COLL]["m"] # Nil /\ members[COLL]["m"] # Nil)
+                                  THEN <<[pre |-> Snapshot(members, parent, atarget, atpath, backrefs, outcome),
+                                          op |-> op, post |-> Snapshot(m, p, at, ap, br, out)]>>
+                                  ELSE <<>>
                [] OTHER -> hist
 
 Fail(op, err) ==
@@ -282,6 +292,8 @@ Resolve ==
        \* clean domain: first resolution only (re-resolving a link leaves stale back-references, and
        \* re-resolving the middle link of a chain leaves the outer alias listed on the old target)
        /\ (TopDown => (atarget[a] = Nil /\ \A b \in AliasObj : atarget[b] # a))
+       \* (a target path that crosses an unresolved alias triggers a nested lazy resolution: Alias.tla)
+       /\ w.err \in {"ok", "KeyError"}
        /\ IF w.err # "ok" THEN Fail(op, "AliasResolutionError")
           ELSE IF w.obj = a THEN Fail(op, "Cyclic")
           ELSE /\ ~w.via
@@ -368,5 +380,5 @@ SingleContainer == \A o \in Obj : Cardinality({c \in Cont : members[c][NameOf[o]
 \* behaviours for replay: printed when the history reaches its bound (exhaustive gen and -simulate alike)
 EmitHist ==
   /\ (Gen = "hist" /\ Len(hist) = MaxDepth + 1) => PrintT(<<"CASE", ToJson([hist |-> hist])>>)
-  /\ (Gen = "trans" /\ Len(hist) = 1) => PrintT(<<"CASE", ToJson(hist[1])>>)
+  /\ (Gen \in {"trans", "rare"} /\ Len(hist) = 1) => PrintT(<<"CASE", ToJson(hist[1])>>)
 =============================================================================
